@@ -121,46 +121,61 @@ theorem C01_rx_read_ok (dl : Bool) (src : Src) (k : Nat) (h : k ≤ (bytes src).
     connRead dl maxAttempts src k = ((bytes src).take k, .ok, dropBytes k src) :=
   connRead_calm dl src k h he
 
-/- FULL property (does NOT hold for the code as it is, see `C01_rx_cex_stalled_body`):
-     ∀ frames `fs` well-formed for the protocol, ∀ sockets `src` carrying exactly their encoding (cut and
-     delayed in any way), `recv` hands every frame, own header and own body, to the call registered for its
-     stream id and never anything else to any call.
-   Proved with the excluding hypothesis `Calm`: fewer than five read deadlines expire while any ONE frame
-   body is awaited (any number may expire while a header is awaited, and between frames). -/
-open Rx in
-theorem C01_rx_sync_partial (proto : Nat) (hp1 : 1 ≤ proto) (hp5 : proto ≤ 5) (dl : Bool) (fs : List Frame)
-    (cs : Calls) (src : Src) (hwf : ∀ f ∈ fs, f.wf proto) (hb : bytes src = encodeAll proto fs)
-    (hcalm : dl = true → Calm proto fs src) :
-    recv proto dl cs src = ⟨dispatch cs fs, .eof⟩ := by
-  apply recvLoop_sync proto hp1 hp5 dl fs _ cs src _ hwf hb hcalm
-  -- enough fuel: every frame has at least 8 bytes
-  have hlen : ∀ (gs : List Frame), gs.length ≤ (encodeAll proto gs).length := by
+/-- enough fuel: every frame has at least 8 bytes -/
+theorem frames_le_bytes (proto : Nat) (fs : List Rx.Frame) (src : Rx.Src) (hb : Rx.bytes src = Rx.encodeAll proto fs) :
+    fs.length < src.length + 1 := by
+  have hlen : ∀ (gs : List Rx.Frame), gs.length ≤ (Rx.encodeAll proto gs).length := by
     intro gs
     induction gs with
-    | nil => simp [encodeAll]
+    | nil => simp [Rx.encodeAll]
     | cons g gs ih =>
-      simp only [encodeAll, List.flatMap_cons, List.length_append, List.length_cons] at ih ⊢
-      have := encode_length proto g
-      have : 8 ≤ hdrLen proto := by simp [hdrLen]; split <;> omega
+      simp only [Rx.encodeAll, List.flatMap_cons, List.length_append, List.length_cons] at ih ⊢
+      have := Rx.encode_length proto g
+      have : 8 ≤ Rx.hdrLen proto := by simp [Rx.hdrLen]; split <;> omega
       omega
   have := hlen fs
-  have := bytes_length_le src
+  have := Rx.bytes_length_le src
   rw [hb] at this
   omega
 
 open Rx in
-/-- without a read deadline (Config.Timeout = 0) nothing is excluded -/
+/-- FULL property (the code after the repair of KF-C01-1):
+     ∀ frames `fs` well-formed for the protocol, ∀ sockets `src` carrying exactly their encoding (cut and
+     delayed in ANY way, any number of read deadlines expiring anywhere), `recv` hands every frame, own header
+     and own body, to the call registered for its stream id and never anything else to any call — either all
+     of them (`⟨dispatch cs fs, eof⟩`), or, when a body read gave up after five read deadlines, exactly the
+     frames before that one, nothing of the frame the loop ended in, and the loop ends with the time-out error
+     (Conn.serve closes the connection): it never goes on reading inside a body. -/
+theorem C01_rx_sync (proto : Nat) (hp1 : 1 ≤ proto) (hp5 : proto ≤ 5) (dl : Bool) (fs : List Frame)
+    (cs : Calls) (src : Src) (hwf : ∀ f ∈ fs, f.wf proto) (hb : bytes src = encodeAll proto fs) :
+    recv proto dl cs src = ⟨dispatch cs fs, .eof⟩ ∨
+    ∃ n f d r, fs[n]? = some f ∧ r ≠ .ok ∧
+      recv proto dl cs src = ⟨(dispatch cs fs).take n ++ [⟨d, r, f.h, []⟩], .tmo⟩ :=
+  recvLoop_sync_full proto hp1 hp5 dl fs _ cs src (frames_le_bytes proto fs src hb) hwf hb
+
+open Rx in
+/-- … and when fewer than five read deadlines expire while any ONE frame body is awaited (`Calm`; any number
+    may expire while a header is awaited, and between frames) nothing is lost: the first alternative -/
+theorem C01_rx_sync_calm (proto : Nat) (hp1 : 1 ≤ proto) (hp5 : proto ≤ 5) (dl : Bool) (fs : List Frame)
+    (cs : Calls) (src : Src) (hwf : ∀ f ∈ fs, f.wf proto) (hb : bytes src = encodeAll proto fs)
+    (hcalm : dl = true → Calm proto fs src) :
+    recv proto dl cs src = ⟨dispatch cs fs, .eof⟩ :=
+  recvLoop_sync proto hp1 hp5 dl fs _ cs src (frames_le_bytes proto fs src hb) hwf hb hcalm
+
+open Rx in
+/-- without a read deadline (Config.Timeout = 0) nothing is ever lost -/
 theorem C01_rx_sync_no_deadline (proto : Nat) (hp1 : 1 ≤ proto) (hp5 : proto ≤ 5) (fs : List Frame)
     (cs : Calls) (src : Src) (hwf : ∀ f ∈ fs, f.wf proto) (hb : bytes src = encodeAll proto fs) :
     recv proto false cs src = ⟨dispatch cs fs, .eof⟩ :=
-  C01_rx_sync_partial proto hp1 hp5 false fs cs src hwf hb (by simp)
+  C01_rx_sync_calm proto hp1 hp5 false fs cs src hwf hb (by simp)
 
-/-! Counterexample (kernel-checked; also the replay input `rxk 4 1 1,2 - 840000010800…` for the real
+/-! Regression (kernel-checked; the replay input `rxk 4 1 1,2 - 840000010800…` of KF-C01-1 for the real
     code): the server answers the request on stream 1 with ONE well-formed frame, whose 11-byte body stalls
-    after its first byte for five read deadlines. Conn.Read gives up; readFrame wraps the timeout into a
-    plain error, so recv does not close the connection but hands the error to call 1 and goes on reading
-    "headers" from the rest of that body. The rest happens to look like a frame for stream 2: the call
-    waiting on stream 2 — to which the server has sent nothing — is handed bytes of the answer to call 1. -/
+    after its first byte for five read deadlines. Conn.Read gives up; readFrame wraps the timeout with %w,
+    recv finds the net.Error and returns it: the loop ends, nothing is handed to call 1, and call 2 — to which
+    the server has sent nothing — gets nothing. (Before the repair recv handed the error to call 1 and went on
+    reading "headers" from the rest of that body, which here looks like a frame for stream 2: call 2 was
+    handed bytes of the answer to call 1.) -/
 namespace Cex
 open Rx
 def inner : Frame := ⟨⟨0x84, 0, 2, 8, 1⟩, [0xBB]⟩
@@ -172,14 +187,12 @@ end Cex
 
 open Rx in
 set_option maxRecDepth 8192 in
-theorem C01_rx_cex_stalled_body :
+theorem C01_rx_stalled_body_closes :
     Cex.answer1.wf 4 ∧ bytes Cex.socket = encodeAll 4 [Cex.answer1] ∧
-    recv 4 true Cex.calls Cex.socket =
-      ⟨[⟨.call, .gaveUp, Cex.answer1.h, []⟩, ⟨.call, .ok, Cex.inner.h, [0xBB]⟩], .eof⟩ ∧
-    recv 4 true Cex.calls Cex.socket ≠ ⟨dispatch Cex.calls [Cex.answer1], .eof⟩ := by
-  refine ⟨by decide, by decide, by decide, by decide⟩
+    recv 4 true Cex.calls Cex.socket = ⟨[⟨.call, .lost, Cex.answer1.h, []⟩], .tmo⟩ := by
+  refine ⟨by decide, by decide, by decide⟩
 
-/-- non-vacuity of `C01_rx_sync_partial`: two frames in one write, the second cut inside its header and
+/-- non-vacuity of `C01_rx_sync_calm`: two frames in one write, the second cut inside its header and
     inside its body with four expiries in the body, an event frame in between -/
 example : ∃ fs src, (∀ f ∈ fs, Rx.Frame.wf 3 f) ∧ Rx.bytes src = Rx.encodeAll 3 fs ∧ Rx.Calm 3 fs src ∧
     (Rx.recv 3 true [(5, true), (9, false)] src).recs.length = 3 := by
